@@ -7,6 +7,10 @@ Sub-claims (DESIGN §4 C09), all evaluated on the REAL `speckit` through `comput
   4  the auto-density of a channel is the same whether it is analysed alone or as a member of a pair
   5  GyyCx + GyyRx = Gyy and GyySx (optimal-subtraction residual) = Gyy*(1 - coh), delayed couplings included (D2)
   6  |ccoh|^2 = coh
+Every run also visits the EDGE FREQUENCIES of the analysis (`edge_stream`): the DC bin (f = 0: `compute_single_bin(freq=0.0)`, library plans with
+bmin = 0 / 0 < bmin < 1, explicit plans handed in as a callable scheduler), sub-first-bin frequencies, and Nyquist (f = fs/2 and just below), with
+records whose DC content is real (non-zero mean / red noise, order = -1 as well as 0..2) and partially coherent, so that a frequency-dependent
+scaling of only some of the densities is seen by sub-claims 1, 3, 4, 5; the synthetic results carry f = 0 and f = fs/2 bins too.
 This file also holds the helpers shared with C10 and C11 (pair generator, option cycling, tolerances, replay plumbing).
 """
 from __future__ import annotations
@@ -43,13 +47,20 @@ RULE = ("cases = (pair kind: independent / mixed kinds / identical / scaled y=-3
         "zero-zero / const-const / zero-const, N, fs, order -1..2, scheduler (4), window kaiser(psll)/hann, backend auto/numpy, 2xN or Nx2 layout) "
         "through compute_spectrum|lpsd and compute_single_bin (random frequency, L incl. L = N), each analysed as [x,y], [y,x], x alone, y alone; "
         "plus synthetic SpectrumResults over 12 decades of magnitude with degenerate bins; distinct by (entry point, pair kind, order, scheduler, "
-        "window, backend); non-trivial = both channels non-zero and at least one bin averaged over >= 2 segments (single bin: K >= 2)")
+        "window, backend); non-trivial = both channels non-zero and at least one bin averaged over >= 2 segments (single bin: K >= 2); "
+        "edge-frequency stream on every run: DC-carrying partially coherent pairs (small mean / large mean / red noise / y=-3x with mean) x order "
+        "(-1 on every other case) x {library scheduler with bmin = 0 or in (0,1); explicit plan (callable scheduler) with bins at f = 0 (K >= 2), "
+        "below the first bin, mid-band, just below Nyquist and at fs/2; compute_single_bin at freq = 0 and at fs/2 / near it / below fs/N}; "
+        "synthetic SpectrumResults with f = 0 and f = fs/2 bins; the number of DC bins with real power and coherence in (0.25, 1) is measured")
 
 U = _an.U
 ORDERS = [-1, 0, 1, 2]
 WINS: List[Tuple[str, Optional[float]]] = [("kaiser", 60.0), ("hann", None), ("kaiser", 200.0), ("kaiser", 123.0)]
 PAIR_KINDS = ["indep", "mixed", "identical", "scaled", "delayed", "weak", "strong", "zero-x", "zero-y", "const-x", "const-y",
               "zero-zero", "const-const", "zero-const"]
+DC_KINDS = ["dc-partial", "dc-offset", "dc-red", "dc-scaled"]     # records whose DC bin carries real power (edge_stream)
+DEP_KINDS = ("identical", "scaled", "dc-scaled")
+LIB_BMIN0 = ["ltf", "vectorized_ltf", "new_ltf"]                   # schedulers that honour bmin < 1 (lpsd_plan forces bmin = 1)
 NAMES = ["Gxx", "Gyy", "Gxy", "Gyx", "coh", "ccoh", "Hxy", "Hyx", "GyyCx", "GyyRx", "GyySx"]
 MAX_VIOL = 8
 MARGIN: Dict[str, float] = {}
@@ -132,15 +143,73 @@ def pair(rng: np.random.Generator, N: int, kind: str) -> Tuple[np.ndarray, np.nd
     raise ValueError(kind)
 
 
+def pair_dc(rng: np.random.Generator, N: int, kind: str) -> Tuple[np.ndarray, np.ndarray]:
+    """two channels whose DC bin carries real power when only the window is applied (order = -1), with a fluctuating part that is
+    partially coherent (target coherence 0.35..0.9, i.e. well inside (0.25, 1)) at every frequency"""
+    s = float(10 ** rng.uniform(-3, 3))
+    c = float(rng.uniform(0.35, 0.9))
+    g, h = math.sqrt(c), math.sqrt(1.0 - c)
+    n1, n2 = rng.standard_normal(N), rng.standard_normal(N)
+    sg = lambda: float(rng.choice([-1.0, 1.0]))  # noqa: E731
+    if kind == "dc-partial":      # mean comparable to the scatter of a windowed segment sum: the DC bin itself is partially coherent
+        m1, m2 = sg() * float(rng.uniform(0.3, 2.0)) / math.sqrt(N), sg() * float(rng.uniform(0.3, 2.0)) / math.sqrt(N)
+        return m1 + n1, s * (m2 + g * n1 + h * n2)
+    if kind == "dc-offset":       # large means (DC bin dominated by them), slow drift on x
+        m1, m2 = sg() * float(rng.uniform(0.5, 5.0)), sg() * float(rng.uniform(0.5, 5.0))
+        t = np.arange(N) / max(1, N)
+        return m1 + 0.3 * np.sin(2 * np.pi * float(rng.uniform(0.2, 1.5)) * t) + n1, s * (m2 + g * n1 + h * n2)
+    if kind == "dc-red":          # random walks: power concentrated at the lowest frequencies, partially coherent there
+        w1, w2 = np.cumsum(n1), np.cumsum(n2)
+        return w1, s * (g * w1 + h * w2)
+    if kind == "dc-scaled":       # linearly dependent channels with a mean
+        x = sg() * float(rng.uniform(0.5, 5.0)) + n1
+        return x, -3.0 * x
+    raise ValueError(kind)
+
+
+def gen_plan(rng: np.random.Generator, N: int, fs: float) -> Dict[str, Any]:
+    """an explicit plan (ascending f, non-increasing L, evenly spread starts as the library schedulers produce them) whose bins sit on the
+    edges of the band: f = 0 averaged over >= 2 segments, below the first Fourier bin, mid-band, just below Nyquist, fs/2"""
+    f = [0.0, 0.3 * fs / N, fs / N, float(rng.uniform(0.01, 0.2)) * fs, float(rng.uniform(0.2, 0.45)) * fs, 0.5 * fs * (1.0 - 1.0 / N), 0.5 * fs]
+    lo, hi = max(4, N // 16), max(5, N // 2)
+    Ls = sorted((int(v) for v in rng.integers(lo, hi + 1, size=len(f))), reverse=True)
+    D = []
+    for L in Ls:
+        kmax = int(min(8, N - L + 1))
+        K = int(rng.integers(2, kmax + 1)) if kmax >= 2 else 1
+        d = np.unique(np.floor(np.arange(K) * ((N - L) / max(1, K - 1)) + 0.5).astype(np.int64)) if K > 1 else np.array([0], dtype=np.int64)
+        D.append([int(v) for v in d])
+    return {"f": [float(v) for v in f], "L": Ls, "D": D}
+
+
 def stack(x: np.ndarray, y: np.ndarray, layout: str) -> np.ndarray:
     return np.vstack([x, y]) if layout == "2xN" else np.ascontiguousarray(np.vstack([x, y]).T)
 
 
+def explicit_plan(spec: Dict[str, Any]):
+    """a callable scheduler (the analyzer accepts one) that returns the plan written down in `spec` = {"f": [...], "L": [...], "D": [[...], ...]}
+    (JSON-serialisable, so that it travels in a replay)"""
+    def explicit(**kw):
+        fs = float(kw["fs"])
+        f = np.asarray(spec["f"], dtype=float)
+        L = np.asarray(spec["L"], dtype=np.int64)
+        D = [np.asarray(d, dtype=np.int64) for d in spec["D"]]
+        K = np.array([len(d) for d in D], dtype=np.int64)
+        r = fs / L
+        O = np.array([0.0 if len(d) < 2 else max(0.0, 1.0 - float(d[1] - d[0]) / float(l)) for d, l in zip(D, L)])
+        return {"f": f, "r": r, "b": f / r, "L": L, "K": K, "navg": K.copy(), "D": D, "O": O}
+    return explicit
+
+
 def spectrum(data: np.ndarray, fs: float, opts: Dict[str, Any], entry: str = "compute_spectrum"):
     import speckit
+    o = dict(opts)
+    spec = o.pop("plan", None)
+    if spec is not None:            # explicit plan: opts["scheduler"] is only the label "explicit"
+        o["scheduler"] = explicit_plan(spec)
     with warnings.catch_warnings(), np.errstate(all="ignore"):
         warnings.simplefilter("ignore")
-        return getattr(speckit, entry)(data, fs, **opts)
+        return getattr(speckit, entry)(data, fs, **o)
 
 
 def single_bin(data: np.ndarray, fs: float, freq: float, L: int, opts: Dict[str, Any]):
@@ -237,7 +306,7 @@ def check_results(P: C.Part, r, rs, rx, ry, x, y, fs, opts, kind: str, where: st
         if not g2 <= A["Gxx"][j] * A["Gyy"][j] * (1 + epsK[j]) + 1e-300:
             bad("cauchy-schwarz", j, f"|Gxy|^2 = {g2!r} > Gxx*Gyy = {A['Gxx'][j] * A['Gyy'][j]!r}")
     # 2. coherence one: single segment; dependent channels
-    dep = kind in ("identical", "scaled")
+    dep = kind in DEP_KINDS
     for j in range(nf):
         pos = XX[j] > 0 and YY[j] > 0 and XX[j] * YY[j] > 1e-280
         if K[j] == 1 and pos:
@@ -277,6 +346,17 @@ def check_results(P: C.Part, r, rs, rx, ry, x, y, fs, opts, kind: str, where: st
             bad("auto-consistent", j, f"Gyy = {A['Gyy'][j]!r} in the pair but {gy[j]!r} for y alone (tol {2 * c * B['tYY'][j]:.3g})")
     # 5./6. attribute identities
     check_identities(P, A, sig, rp, where, f"{kind} order={order}")
+    # measured coverage of the band edges: which bins sat at DC / Nyquist, and whether they carried real, partially coherent power
+    fj = np.asarray(r.f, dtype=float)
+    for j in np.flatnonzero((fj == 0.0) | (fj >= 0.5 * fs * (1 - 1e-9)) | (fj * len(x) < fs * (1 - 1e-9))):
+        edge = "DC" if fj[j] == 0.0 else ("Nyquist" if fj[j] >= 0.5 * fs * (1 - 1e-9) else "below-first-bin")
+        P.hit(f"edge-bin {edge}")
+        real = XX[j] > 100 * B["tXX"][j] and YY[j] > 100 * B["tYY"][j]
+        if real:
+            P.hit(f"edge-bin {edge} with power")
+            if K[j] >= 2 and 0.25 < coh[j] < 0.999:
+                P.hit(f"edge-bin {edge} with power, K>=2, 0.25<coh<0.999")
+                P.nontrivial.add(("edge", edge, where, str(opts.get("scheduler")), order))
     if kind not in ("zero-x", "zero-y", "zero-zero", "zero-const") and bool(np.any(K >= 2)):
         P.nontrivial.add((where, kind, order, str(opts.get("scheduler")), str(opts.get("win")), str(opts.get("backend"))))
     P.hit(f"{where}:{kind}")
@@ -325,13 +405,36 @@ def run_case(P: C.Part, x, y, fs, opts, layout: str, entry: str, single, kind: s
     check_results(P, r, rs, rx, ry, np.asarray(x, dtype=float), np.asarray(y, dtype=float), fs, opts, kind, where, rp)
 
 
-def check_fake(P: C.Part, bins: List[Dict[str, Any]], fs: float) -> None:
-    """identities 5/6 and the bounds on a synthetic SpectrumResult (per-bin numbers satisfying Cauchy-Schwarz, many decades, degenerate bins)"""
-    res = _an.fake_result(bins, True, fs)
+def fake_result_at(bins: List[Dict[str, Any]], fs: float, f: List[float]):
+    """like _an.fake_result (a real two-channel SpectrumResult built from chosen per-bin numbers) but on the frequency axis `f`"""
+    from speckit.analysis import SpectrumResult
+    n = len(bins)
+    K = np.array([int(b["navg"]) for b in bins], dtype=np.int64)
+    d = {"f": np.asarray(f, dtype=float), "r": np.full(n, 0.1), "b": np.ones(n), "L": np.full(n, 10, dtype=np.int64), "K": K, "navg": K.copy(),
+         "D": [np.arange(int(b["navg"]), dtype=np.int64) for b in bins], "O": np.zeros(n), "compute_t": np.zeros(n),
+         "XY": np.array([b["XY"] for b in bins], dtype=complex)}
+    for k in ("XX", "YY", "S12", "S2", "M2"):
+        d[k] = np.array([b[k] for b in bins], dtype=float)
+    return SpectrumResult(d, {"Jdes": n}, True, fs)
+
+
+def edge_axis(n: int, fs: float) -> List[float]:
+    """ascending frequency axis of n >= 4 bins that starts at DC and ends at Nyquist"""
+    mid = np.linspace(0.0, 0.5 * fs, n)[1:-1]
+    return [0.0] + [float(v) for v in mid[:-1]] + [0.5 * fs * (1 - 2.0 ** -40), 0.5 * fs]
+
+
+def check_fake(P: C.Part, bins: List[Dict[str, Any]], fs: float, f: Optional[List[float]] = None) -> None:
+    """identities 5/6 and the bounds on a synthetic SpectrumResult (per-bin numbers satisfying Cauchy-Schwarz, many decades, degenerate bins);
+    `f` = the frequency axis (default: _an.fake_result's 0.1..1.0, strictly inside the band)"""
+    res = _an.fake_result(bins, True, fs) if f is None else fake_result_at(bins, fs, f)
     with warnings.catch_warnings(), np.errstate(all="ignore"):
         warnings.simplefilter("ignore")
         A = {n: np.asarray(getattr(res, n)) for n in NAMES}
     rp = {"fake": [dict(b, XY=[complex(b["XY"]).real, complex(b["XY"]).imag]) for b in bins], "fs": fs}
+    if f is not None:
+        rp["f"] = [float(v) for v in f]
+        P.hit("synthetic: axis with f=0 and f=fs/2")
     sig = {"kind": "synthetic", "where": "SpectrumResult"}
     P.cases += len(bins)
     for n in NAMES:
@@ -359,6 +462,46 @@ def corpus_d2() -> Tuple[np.ndarray, np.ndarray]:
     return x, 0.7 * np.roll(x, 3) + 0.3 * r0.standard_normal(4000)
 
 
+def edge_stream(P: C.Part, ctx, rng: np.random.Generator, n: int) -> None:
+    """the band edges, on every run: DC-carrying partially coherent pairs analysed (a) by a library scheduler asked for bmin = 0 (first half of
+    the cases) or 0 < bmin < 1, (b) on an explicit plan with bins at f = 0 (K >= 2), below the first bin, just below Nyquist and at fs/2,
+    (c) by compute_single_bin at freq = 0 and at a second edge frequency; order = -1 on every other case (DC power survives), 0..2 on the rest;
+    plus synthetic results whose axis runs from f = 0 to fs/2. Index scheme (mixed radix, so that the factors are crossed, not correlated):
+    order <- i % 2, pair kind <- (i // 2) % 4, bmin = 0 <- (i // 8) % 2 == 0, scheduler <- (i // 2 + i // 8) % 3."""
+    sizes = [64, 257, 1000, 2048]
+    for i in range(n):
+        if len(P.violations) >= MAX_VIOL or ctx.time_left() < (600 if ctx.thorough else 25):
+            break
+        kind = DC_KINDS[(i // 2) % len(DC_KINDS)]
+        N = int(sizes[(i // 2 + i // 8) % len(sizes)]) if i < 16 else int(rng.choice(sizes))
+        fs = float(rng.choice([1.0, 2.0, 1000.0, float(rng.uniform(0.1, 1e4))]))
+        opts = cyc_options(rng, N, i)
+        opts["order"] = -1 if i % 2 == 0 else [0, 1, 2][(i // 2) % 3]
+        opts["backend"] = "numpy" if (i // 2) % 3 == 2 else "auto"
+        xx, yy = pair_dc(rng, N, kind)
+        layout = "2xN" if i % 3 else "Nx2"
+        # (a) library scheduler, plan reaching below the first Fourier bin
+        oa = dict(opts, scheduler=LIB_BMIN0[(i // 2 + i // 8) % 3], bmin=0.0 if (i // 8) % 2 == 0 else float(rng.choice([0.5, float(rng.uniform(0.05, 0.95))])))
+        run_case(P, xx, yy, fs, oa, layout, "lpsd" if i % 5 == 4 else "compute_spectrum", None, kind)
+        # (b) explicit plan
+        ob = dict(opts, scheduler="explicit", plan=gen_plan(rng, N, fs))
+        run_case(P, xx, yy, fs, ob, layout, "compute_spectrum", None, kind)
+        # (c) single bin: DC (K >= 2 except every fourth case: L = N), then one more edge frequency
+        Ldc = N if i % 4 == 3 else int(rng.choice([max(4, N // 2), max(4, N // 3), max(4, N // 8), int(rng.integers(4, max(5, N // 2)))]))
+        run_case(P, xx, yy, fs, opts, layout, "compute_spectrum", {"freq": 0.0, "L": Ldc}, kind)
+        L2 = int(rng.choice([max(4, N // 2), max(4, N // 8), int(rng.integers(4, N + 1))]))
+        f2 = [0.5 * fs, 0.25 * fs / N, 0.5 * fs * (1 - 1e-6), fs / L2][(i // 2) % 4 if i % 2 == 0 else (i // 2 + 1) % 4]
+        run_case(P, xx, yy, fs, opts, layout, "compute_spectrum", {"freq": float(f2), "L": L2}, kind)
+        # synthetic result on an axis from DC to Nyquist (first and last bin regular, partially coherent)
+        if i % 2 == 0:
+            check_fake(P, [_an.gen_bin(rng, True, edge=(k % 4 == 2)) for k in range(24)], fs, edge_axis(24, fs))
+        if i < 1:
+            P.sample({"op": "oracle-edge", "kind": kind, "N": N, "fs": fs, "opts": {k: v for k, v in ob.items() if k != "plan"}, "plan_f": ob["plan"]["f"]})
+    want = "edge-bin DC with power, K>=2, 0.25<coh<0.999"
+    P.notes.append(f"edge stream: {P.histogram.get(want, 0)} DC bins with real power, K >= 2 and coherence in (0.25, 0.999); "
+                   f"{P.histogram.get('edge-bin DC with power', 0)} DC bins with real power; {P.histogram.get('edge-bin Nyquist with power', 0)} at Nyquist")
+
+
 # ---------------------------------------------------------------- correspondence / oracle / replay
 def correspondence(ctx) -> C.Part:
     """generated Lean attribute table (Float, driver) vs the real SpectrumResult.__getattr__ for the attributes C09 talks about"""
@@ -382,6 +525,8 @@ def oracle(ctx, intensive: bool = False, hints: List[Dict[str, Any]] = ()) -> C.
     hb = [h["bin"] for h in hints if isinstance(h, dict) and h.get("mode") == "cross" and isinstance(h.get("bin"), dict)]
     if hb:
         check_fake(P, [dict(b, XY=complex(b["XY"])) for b in hb[:50]], float([h for h in hints if "fs" in h][0]["fs"]))
+    # band edges (DC / below the first bin / Nyquist) on every run, from a child generator so that the main stream below is undisturbed
+    edge_stream(P, ctx, rng.spawn(1)[0], ctx.scale(16, 64) * (4 if intensive else 1))
     n = ctx.scale(196, 2100) * (4 if intensive else 1)
     sizes = [16, 64, 257, 1000, 2048] if not ctx.thorough else [8, 16, 64, 100, 257, 1000, 2048, 4000, 10007]
     for i in range(n):
@@ -416,7 +561,7 @@ def replay(ctx, data) -> C.Part:
     for v in data.get("violations", []):
         rp = v["replay"]
         if "fake" in rp:
-            check_fake(P, [dict(b, XY=complex(b["XY"][0], b["XY"][1])) for b in rp["fake"]], float(rp["fs"]))
+            check_fake(P, [dict(b, XY=complex(b["XY"][0], b["XY"][1])) for b in rp["fake"]], float(rp["fs"]), rp.get("f"))
         else:
             run_case(P, np.array(rp["x"], dtype=float), np.array(rp["y"], dtype=float), float(rp["fs"]), rp["opts"], rp["layout"], rp["entry"],
                      rp["single"], rp["kind"])
